@@ -77,27 +77,27 @@ CHECKS = {
         design="5-C14"),
     "C12": dict(
         engine="E5-services",
-        technique="Coq proof (convergence invariant over all histories of poll answers / register / unregister / task executions in any order of the two running tasks; reported-hash invariant; no-change and failed-poll frame laws; captured-config discipline refuted by witness) + in-Coq correspondence with the real service under a controlled task handler + physical two-worker runs",
-        text="5 Coq theorems over ConfigSvc.v: in every reachable state with no update task pending the handler's installed list "
+        technique="Coq proof over functions REGENERATED from /repo/src by a fail-closed Python-ast translator (pure.py) and proved equal to the model + Coq proof (convergence invariant over all histories of poll answers / register / unregister / task executions in any order of the two running tasks; reported-hash invariant; no-change and failed-poll frame laws; captured-config discipline refuted by witness) + in-Coq correspondence with the real service under a controlled task handler + physical two-worker runs",
+        text="7 Coq theorems over ConfigSvc.v: in every reachable state with no update task pending the handler's installed list "
              "is the latest polled configuration followed by the live registrations; the hash reported is that of the last "
              "update answer; a no-change answer changes only the timestamp; a failed or malformed poll changes nothing; tasks "
              "installing the configuration captured at submit are refuted by a checked witness (update, update, second task "
              "first). Tied to the code by generated histories through the real LongPoll.poll (scripted stub), "
              "TracepointConfigService, ConfigService and TriggerHandler with a task handler that lets the harness pick which "
-             "of the two running tasks installs first; installed list after every step compared inside Coq.",
+             "of the two running tasks installs first; installed list after every step compared inside Coq. Tie T2: update_no_change, update_new_config, __trigger_update, update_listeners and the handler's listener are translated from source on every run (coq/gen/PService.v) and proved to be the model's steps; C12_the_code_installs_the_current_state is stated over the translated code (what a task installs does not depend on what it captured).",
         note="Trusted: Coq kernel+VM; harness; an update task's installation is atomic (the service's lock); pool of two workers; "
              "timer loop continuing after a failing poll is exercised on the real RepeatedTimer, not proved.",
         design="5-C12"),
     "C13": dict(
         engine="E5-services",
-        technique="Coq proof (handle freshness/uniqueness invariant over all histories; register adds alongside; unregister removes exactly the registration of that handle; twice is the identity; location-as-handle refuted) + in-Coq correspondence with the real service and API",
-        text="7 Coq theorems over ConfigSvc.v: handles of live registrations are pairwise distinct in every reachable state; a "
+        technique="Coq proof over functions REGENERATED from /repo/src by a fail-closed Python-ast translator (pure.py) and proved equal to the model + Coq proof (handle freshness/uniqueness invariant over all histories; register adds alongside; unregister removes exactly the registration of that handle; twice is the identity; location-as-handle refuted) + in-Coq correspondence with the real service and API",
+        text="8 Coq theorems over ConfigSvc.v: handles of live registrations are pairwise distinct in every reachable state; a "
              "registration is appended under a fresh handle and leaves the service's configuration alone; unregistering a "
              "handle removes the registration that returned it and no other, whatever shares its location; a second "
              "unregister is the identity; service updates keep the registrations; at quiescence installed = service's + "
              "registered; the location-as-handle discipline is refuted by a checked witness. Tied to the code by histories "
              "weighted to register/unregister on shared lines (repeated and never-returned handles) and by the public "
-             "register_tracepoint / unregister objects.",
+             "register_tracepoint / unregister objects. Tie T2: add_custom / remove_custom are translated from source on every run (coq/gen/PService.v) and proved to be the model's Register / RegisterRefused / Unregister steps.",
         note="Trusted: Coq kernel+VM; harness; uuid4 handles are distinct (modelled as a counter).",
         design="5-C13"),
     "C11": dict(
@@ -165,13 +165,13 @@ CHECKS = {
     "C04": dict(
         engine="E2-handler",
         technique="Coq proof over functions REGENERATED from /repo/src by a fail-closed Python-ast translator (pure.py) and proved equal to the model + Coq proof (state invariant over all hit histories: count, spacing, window, liveness; invariant of the N-thread interleaving semantics over all schedules; unlocked discipline refuted by witness) + in-Coq correspondence under a virtual clock and forced schedules",
-        text="11 Coq theorems over Limiter.v: for every hit history and every setting (text, number, absent, unparsable -> "
+        text="13 Coq theorems over Limiter.v: for every hit history and every setting (text, number, absent, unparsable -> "
              "defaults 1/1000) at most fire_count collections unless -1, consecutive collections >= fire_period ms apart "
              "(boundary collects), none outside the window the action holds, permitted true hits do collect; for ANY number "
              "of threads and ANY schedule of their steps (check; condition; atomic claim; collect) the same bounds hold in "
              "every reachable state; the check-then-record discipline without the claim is refuted by a checked witness. "
              "Tied to the code by hit histories through the real handler under a virtual clock and by 2-4 threads parked "
-             "inside condition/watch evaluation and released in generated orders, both compared inside Coq. Tie T2: in_window, fire, can_trigger, try_trigger are translated from source on every run (coq/gen/PLimits.v) and proved equal to the model's; C04_the_code_allows_only_within_limits / _records_iff_allowed are stated over the translated code.",
+             "inside condition/watch evaluation and released in generated orders, both compared inside Coq. Tie T2: in_window, fire, can_trigger, try_trigger are translated from source on every run (coq/gen/PLimits.v) and proved equal to the model's; C04_the_code_allows_only_within_limits / _records_iff_allowed are stated over the translated code. The settings (LocationAction.__get_int, fire_count, fire_period) are translated too: C04_the_code_settings_are_the_model, C04_the_code_defaults.",
         note="Trusted: Coq kernel+VM; harness; hit times positive; numerals without blanks/underscores; atomicity of the code "
              "between two parking points is by the GIL, exercised not proved. Known finding: window arguments never reach the action.",
         design="5-C04"),
